@@ -13,6 +13,7 @@ mod sqlite;
 mod c08;
 mod c07;
 mod c14;
+mod dp;
 
 fn main() {
     let args: Vec<String> = std::env::args().collect();
@@ -44,6 +45,10 @@ fn main() {
                       println!("{}\n{}", qrlew::ast::Query::from(rw.relation()).to_string().replace("), ", "),\n"), rw.dp_event()); }
             "pup" => { let rw = rel.rewrite_as_privacy_unit_preserving(&w.relations, None, w.privacy_unit.clone(), rules::dp_params(), None).unwrap();
                       println!("{}", qrlew::ast::Query::from(rw.relation()).to_string().replace("), ", "),\n")); }
+            "exec" => { let rw = rel.rewrite_with_differential_privacy(&w.relations, None, w.privacy_unit.clone(), rules::dp_params()).unwrap();
+                      let sql = sqlite::set_noise(&qrlew::ast::Query::from(rw.relation()).to_string(), 0.0);
+                      let mut r = common::Rng::new(7); let data = sqlite::gen_data(&mut r, &w.specs, 12); let db = sqlite::Db::new(&w.specs, &data);
+                      println!("{:?}", db.query(&sql)); println!("{:?}", db.query(&outdir)); }
             _ => { println!("{}\n{}\nsize={}", qrlew::ast::Query::from(&rel).to_string().replace("), ", "),\n"), rel.schema(), rel.size()); }
         }
         return;
@@ -59,6 +64,8 @@ fn main() {
         "C08" => c08::run(&outdir, seed, thorough),
         "C07" | "C14" => c07::run(&prop, &outdir, seed, thorough),
         p if p.starts_with("C06@") => c06::child(p[4..].parse().unwrap(), &outdir, seed, thorough),
+        "C05" => dp::run_c05(&outdir, seed, thorough),
+        "C01" => dp::run_c01(&outdir, seed, thorough),
         "GEN-FNMETA" => { if let Err(e) = c14::generate(&outdir) { eprintln!("{}", e); std::process::exit(1); } return; }
         "GEN-RULES" => { if let Err(e) = rules::generate(&outdir) { eprintln!("{}", e); std::process::exit(1); } return; }
         _ => { eprintln!("unknown property {}", prop); std::process::exit(2); }
